@@ -41,6 +41,10 @@ class Prop:
     def extra_coverage(self):
         return {}
 
+    def extra_run(self, tier, seed, workdir):
+        """Optional black-box part. -> (list of failure dicts, coverage dict)"""
+        return [], {}
+
 
 def load_corpus(pid):
     d = os.path.join(VERIF, "corpus", pid)
@@ -215,6 +219,9 @@ def run_property(prop, tier, seed, replay_path=None):
                 tag = "" if k["id"] in witness_seen else " (witness not reproduced on this tree)"
                 say("KNOWN-FINDING: property=%s %s: %s%s" % (pid, k["id"], k.get("what", ""), tag))
 
+        # ---- 5b. black-box part (no model involved)
+        bb_fails, bb_cov = ([], {}) if replay_path else prop.extra_run(tier, seed, workdir)
+
         # ---- 6. verdict
         def is_unknown(c, r, f):
             return not any(k.get("status") == "known" and prop.known_signature(k, c, r["ops"], r["ri"], f)
@@ -232,6 +239,11 @@ def run_property(prop, tier, seed, replay_path=None):
                                       "model_transcript": e["model_lines"],
                                       "mismatches": e["mism"][:5],
                                       "other_failing_cases": len(unknown_fail) - 1})
+            say("VIOLATION property=%s replay=%s" % (pid, path))
+            violations.append(path)
+        elif bb_fails:
+            path = write_replay(pid, {"property": pid, "kind": "oracle", "seed": seed, "engine": "black-box program",
+                                      "failures": [f["msg"] for f in bb_fails][:8], "detail": bb_fails[0]})
             say("VIOLATION property=%s replay=%s" % (pid, path))
             violations.append(path)
         elif mism_cases:
@@ -318,6 +330,7 @@ def run_property(prop, tier, seed, replay_path=None):
             "outside_model": prop.outside_model,
         }
         cov.update(prop.extra_coverage())
+        cov.update(bb_cov)
         write_evidence(pid, tier, seed, cov,
                        ["FS calls succeed", "model hand-written; tied to the code only by the correspondence run above"]
                        + list(prop.trusted), time.time() - t0, len(violations))
